@@ -115,6 +115,12 @@ def traces(tier="quick"):
     return out
 
 
+def jobs(tier="quick"):
+    """the Taylor cell of every series coefficient: rigorous real-arithmetic bound |code - exact| <= 1e-11"""
+    from .taylor_cell import jobs_for
+    return jobs_for(['SO3Quat.exp', 'SO3Mrp.exp', 'SO3Dcm.exp', 'SE3Quat.exp', 'SE3Mrp.exp', 'SE23Quat.exp', 'SE23Mrp.exp', 'SE2.exp'], "C02")
+
+
 def canaries(tier="quick"):
     G = make_groups()
     info = G["SO3Quat"]
@@ -135,6 +141,6 @@ TRUSTED = [
 ]
 ASSUMPTIONS = [
     "lemma L-ODE (not machine-checked): Phi' = A Phi, Phi(0) = I has the unique solution expm(tA)",
-    "flow/neg/comp are proved on the closed-form cell of every series coefficient (theta^2 >= 1e-3, all theta > 0 incl. beyond pi and both MRP shadow branches); the Taylor cell is bounded in C06",
+    "flow/neg/comp are proved on the closed-form cell of every series coefficient (theta^2 >= 1e-3, all theta > 0 incl. beyond pi and both MRP shadow branches); on the Taylor cell the real-arithmetic deviation from the exact function is bounded rigorously (<= 1e-11, taylor-cell obligations; translations in [-1, 1])",
     "requires: Euler target outside the gimbal band; MRP results away from the shadow-switch boundary are covered on both branches",
 ]
